@@ -48,6 +48,9 @@ def build():
         sr = z3.Const("f_s", z3.IntSort())
         return z3.And(
             z3.ForAll([t, n], z3.Implies(n != n0, G_of(st1, s)[t][n] == G_of(st0, s)[t][n])),
+            # the set of known graph names changes at most by gaining this graph's name
+            z3.ForAll([n], z3.Implies(n != n0, K_of(st1, s)[n] == K_of(st0, s)[n])),
+            z3.Implies(K_of(st0, s)[n0], K_of(st1, s)[n0]),
             z3.ForAll([sr], z3.Implies(sr != s, z3.And(G_of(st1, sr) == G_of(st0, sr), K_of(st1, sr) == K_of(st0, sr)))))
 
     FRAME = lambda c: [(STORE_G, store_z(c)), (STORE_K, store_z(c))]
@@ -129,8 +132,11 @@ def build():
         added = z3.Exists([q], z3.And(lc.done[q], QUAD.mk(tr_s(t), tr_p(t), tr_o(t), QUAD.proj(3, q)) == q,
                                       st.field("Graph", "_Graph__identifier", QUAD.proj(3, q)) == n))
         sr = z3.Const("inv_s", z3.IntSort())
+        kn = z3.Exists([q], z3.And(lc.done[q], st.field("Graph", "_Graph__identifier", QUAD.proj(3, q)) == n))
         return z3.And(z3.ForAll([t, n], G1[t][n] == z3.Or(G0[t][n], added)),
-                      z3.ForAll([sr], z3.Implies(sr != s, G_of(st, sr) == G_of(c.old, sr))))
+                      z3.ForAll([n], K_of(st, s)[n] == z3.Or(K_of(c.old, s)[n], kn)),
+                      z3.ForAll([sr], z3.Implies(sr != s, z3.And(G_of(st, sr) == G_of(c.old, sr),
+                                                                 K_of(st, sr) == K_of(c.old, sr)))))
 
     def addn_post(c):
         s = c.self.z
@@ -141,7 +147,12 @@ def build():
         q = z3.Const("q_q", QUAD.sort())
         added = z3.Exists([q], z3.And(qs.member(q), QUAD.mk(tr_s(t), tr_p(t), tr_o(t), QUAD.proj(3, q)) == q,
                                       c.new.field("Graph", "_Graph__identifier", QUAD.proj(3, q)) == n))
-        return z3.ForAll([t, n], G1[t][n] == z3.Or(G0[t][n], added))
+        kn = z3.Exists([q], z3.And(qs.member(q), c.new.field("Graph", "_Graph__identifier", QUAD.proj(3, q)) == n))
+        sr = z3.Const("q_s", z3.IntSort())
+        return z3.And(z3.ForAll([t, n], G1[t][n] == z3.Or(G0[t][n], added)),
+                      z3.ForAll([n], K_of(c.new, s)[n] == z3.Or(K_of(c.old, s)[n], kn)),
+                      z3.ForAll([sr], z3.Implies(sr != s, z3.And(G_of(c.new, sr) == G_of(c.old, sr),
+                                                                 K_of(c.new, sr) == K_of(c.old, sr)))))
 
     def addn_pre(c):
         qs = c.args["quads"]
@@ -208,6 +219,8 @@ def build():
         sr = z3.Const("f_s", z3.IntSort())
         return z3.And(
             z3.ForAll([t, n], z3.Implies(n != n0, G_of(st1, s)[t][n] == G_of(st0, s)[t][n])),
+            z3.ForAll([n], z3.Implies(n != n0, K_of(st1, s)[n] == K_of(st0, s)[n])),
+            z3.Implies(K_of(st0, s)[n0], K_of(st1, s)[n0]),
             z3.ForAll([sr], z3.Implies(sr != s, z3.And(G_of(st1, sr) == G_of(st0, sr), K_of(st1, sr) == K_of(st0, sr)))))
 
     def isub_post(c):
